@@ -90,7 +90,7 @@ Definition oracle_spec_subtags (op : bytes) (args : list bytes) (impl : bytes) :
   else None.
 
 (* ================================================================== likely subtags / direction *)
-From UL Require Import LangId Likely Inst LikelySpec LayoutSpec TablesData LayoutData.
+From UL Require Import LangId LangIdSpec Likely Inst LikelySpec LayoutSpec TablesData LayoutData.
 From UL Require Tables Layout CldrLikely.
 
 Definition dash : bytes := [45].
@@ -190,6 +190,37 @@ Definition spec_min_ok (l s0 r : option bytes) (impl : bytes) : bool :=
      | None => false end
   || beqb impl (fmt_otriple (spec_minimize the_dict l s0 r)).
 
+(* the METHOD forms LanguageIdentifier::maximize / minimize: the answer for the identifier's own (language, script,
+   region), variants carried over; "false" and the identifier itself when nothing changes *)
+Definition fmt_li_changed (x : langid) (o : option (option bytes * option bytes * option bytes)) : bytes :=
+  match o with
+  | Some (l, s0, r) => fmt_bool true ++ sp ++ li_to_string (mkLangId l s0 r (li_variants x))
+  | None => fmt_bool false ++ sp ++ li_to_string x
+  end.
+Definition spec_li_max_ok (a impl : bytes) : bool :=
+  match spec_langid (split a) with
+  | Some x =>
+    let l := li_lang x in let s0 := li_script x in let r := li_region x in
+    beqb impl (fmt_li_changed x (spec_maximize the_dict l s0 r))
+    || (match spec_maximize the_dict l s0 r with
+        | None => negb (s_is_some l && s_is_some s0 && s_is_some r)
+                  && existsb (fun f => beqb impl (fmt_li_changed x f)) (spec_fallbacks the_dict l s0 r)
+        | Some _ => false end)
+  | None => beqb impl (bs "BADARG")
+  end.
+Definition spec_li_min_ok (a impl : bytes) : bool :=
+  match spec_langid (split a) with
+  | Some x =>
+    let l := li_lang x in let s0 := li_script x in let r := li_region x in
+    let mx := if s_is_some l && s_is_some s0 && s_is_some r then Some (l, s0, r) else spec_maximize the_dict l s0 r in
+    ambiguous l s0 r
+    || match mx with
+       | Some (ml, ms, mr) => ambiguous ml None None || ambiguous ml None mr || ambiguous ml ms None
+       | None => false end
+    || beqb impl (fmt_li_changed x (spec_minimize the_dict l s0 r))
+  | None => beqb impl (bs "BADARG")
+  end.
+
 (* CLDR's direction for an identifier that (ignoring variants) is one of the layout locales *)
 Fixpoint cldr_dir_of (x : langid) (es : list (langid * dir)) : option dir :=
   match es with
@@ -286,6 +317,8 @@ Definition oracle_spec_likely (op : bytes) (args : list bytes) (impl : bytes) : 
   let r := opt_arg (arg_n 2 args) in
   if beqb op (bs "maximize") then Some (spec_max_ok l s0 r impl)
   else if beqb op (bs "minimize") then Some (spec_min_ok l s0 r impl)
+  else if beqb op (bs "li_maximize") then Some (spec_li_max_ok (arg1 args) impl)
+  else if beqb op (bs "li_minimize") then Some (spec_li_min_ok (arg1 args) impl)
   else if beqb op (bs "direction_likely") then Some (spec_dir_ok true (arg1 args) impl)
   else if beqb op (bs "direction_plain") then Some (spec_dir_ok false (arg1 args) impl)
   else if beqb op (bs "cldr_version") then Some (beqb impl (bs CldrLikely.cldr_json_version))
